@@ -50,14 +50,20 @@ func zzC10Mgr(pre int) {
 			return sm.MarkUsed(ns, w.issued[0].Address())
 		}},
 		{"ImportPrivateKey", func(ns walletdb.ReadWriteBucket) error { _, err := sm.ImportPrivateKey(ns, wif, bs); return err }},
-		{"ImportScript", func(ns walletdb.ReadWriteBucket) error { _, err := sm.ImportScript(ns, []byte{0x51, 0x52, 0x93, 0x87}, bs); return err }},
+		{"ImportScript", func(ns walletdb.ReadWriteBucket) error {
+			_, err := sm.ImportScript(ns, []byte{0x51, 0x52, 0x93, 0x87}, bs)
+			return err
+		}},
 		{"SetSyncedTo", func(ns walletdb.ReadWriteBucket) error { return w.mgr.SetSyncedTo(ns, bs) }},
 		{"ChangePassphrase", func(ns walletdb.ReadWriteBucket) error {
 			return w.mgr.ChangePassphrase(ns, zzPrvPass, []byte("new-pass"), true, zzFastScrypt)
 		}},
 		{"SetBirthday", func(ns walletdb.ReadWriteBucket) error { return w.mgr.SetBirthday(ns, time.Unix(1700000000, 0)) }},
 		{"ExtendInternalAddresses", func(ns walletdb.ReadWriteBucket) error { return sm.ExtendInternalAddresses(ns, 0, 1) }},
-		{"ImportPublicKey", func(ns walletdb.ReadWriteBucket) error { _, err := sm.ImportPublicKey(ns, priv.PubKey(), bs); return err }},
+		{"ImportPublicKey", func(ns walletdb.ReadWriteBucket) error {
+			_, err := sm.ImportPublicKey(ns, priv.PubKey(), bs)
+			return err
+		}},
 		{"ImportWitnessScript", func(ns walletdb.ReadWriteBucket) error {
 			_, err := sm.ImportWitnessScript(ns, []byte{0x51, 0x53, 0x93, 0x87}, bs, 0, true)
 			return err
@@ -167,4 +173,5 @@ func zzC10Mgr(pre int) {
 func ZzC10Mgr0() { zzC10Mgr(0) }
 
 var _ = memdb.EqualDumps
+
 func ZzC10Mgr1() { zzC10Mgr(1) }
